@@ -628,7 +628,7 @@ func checkC04Encode(c InvalidCase) error {
 type C05BigCase struct {
 	CaseHeader
 	Count   int    `json:"count"`
-	Elem    string `json:"elem"` // bool | i8
+	Elem    string `json:"elem"` // bool | i8 | binary (a single unknown binary of Count bytes)
 	Set     bool   `json:"set"`
 	AtFront bool   `json:"at_front"`
 }
@@ -645,7 +645,11 @@ func (c C05BigCase) input(t *Target) (plain, big []byte) {
 		kind = byte(wm.KSet)
 	}
 	f := []byte{kind, 0x7d, 0x00, et, byte(c.Count >> 24), byte(c.Count >> 16), byte(c.Count >> 8), byte(c.Count)}
-	f = append(f, make([]byte, c.Count)...) // false / 0 elements
+	if c.Elem == "binary" {
+		// one unknown binary of Count bytes instead of a collection
+		f = []byte{byte(wm.KBinary), 0x7d, 0x00, byte(c.Count >> 24), byte(c.Count >> 16), byte(c.Count >> 8), byte(c.Count)}
+	}
+	f = append(f, make([]byte, c.Count)...) // false / 0 elements, or the binary's bytes
 	if c.AtFront {
 		return base, append(f, base...)
 	}
@@ -681,6 +685,9 @@ func checkC05Big(c C05BigCase) error {
 		got, ref reflect.Value
 		err      error
 	}{{"Decode", bs, ps, bse}, {"FromWire", bv, pv, bve}} {
+		if r.err != nil && c.Elem == "binary" {
+			return ev.Errf("evolution/rejected-valid/"+r.name+"/unknown-field/long-binary", "%s of %s rejects a message whose only difference from an accepted one is an unknown binary field of %d bytes: %v", r.name, t.Key, c.Count, r.err)
+		}
 		if r.err != nil {
 			return ev.Errf("evolution/rejected-valid/"+r.name+"/unknown-field/long-collection", "%s of %s rejects a message whose only difference from an accepted one is an unknown field holding a %s of %d one-byte elements: %v", r.name, t.Key, map[bool]string{false: "list", true: "set"}[c.Set], c.Count, r.err)
 		}
@@ -694,7 +701,8 @@ func checkC05Big(c C05BigCase) error {
 }
 
 // C05Big: unknown fields holding collections with more elements than any length threshold of the
-// readers (2^16, 2^20 and one more, 2^21): a grid over a few struct-like targets of the lab.
+// readers (2^16, 2^20 and one more, 2^21), and unknown binaries of 2^20+1 ... 2^26+1 bytes: a grid over a
+// few struct-like targets of the lab.
 func C05Big(t *testing.T) {
 	n := 0
 	for _, tg := range Targets() {
@@ -711,6 +719,12 @@ func C05Big(t *testing.T) {
 				ev.Case(ev.Digest([]byte(tg.Prog.SchemaJSON), []byte(tg.Key), []byte(fmt.Sprint(count, elem))), true, "unit:c05-big", fmt.Sprintf("count:%d", count))
 				ev.ReportSoft(t, "c05-big", c, ev.Guard(func() error { return checkC05Big(c) }))
 			}
+		}
+		// a single unknown binary longer than any plausible length threshold (2^20, 2^24, 2^26)
+		for i, count := range []int{1<<20 + 1, 1<<24 - 1, 1 << 24, 1<<24 + 1, 1<<26 + 1} {
+			c := C05BigCase{CaseHeader: header(tg), Count: count, Elem: "binary", AtFront: i%2 == 0}
+			ev.Case(ev.Digest([]byte(tg.Prog.SchemaJSON), []byte(tg.Key), []byte(fmt.Sprint(count, "binary"))), true, "unit:c05-big", fmt.Sprintf("binary-bytes:%d", count))
+			ev.ReportSoft(t, "c05-big", c, ev.Guard(func() error { return checkC05Big(c) }))
 		}
 	}
 }
